@@ -112,6 +112,14 @@ CHECKS["C05"] = (
     "DESIGN.md section 4, C05",
 )
 
+CHECKS["C20"] = (
+    "E1-explicit-state+E2-fault-enumerator+E3-thread-scheduler",
+    "exhaustive enumeration of copy-operation sequences, of abort points (every executed library line / user-callback invocation), and stateless preemption-bounded exploration (bound 2) of real threads under a controlled scheduler with cooperative locks",
+    "(a) every sequence of <= 3 (quick) / 4 (thorough) copying operations (12 kinds: constructors with mutable / nested / module-bearing arguments, helpers, deepcopy flat / nested to depth 3 / nested instances, reset, user __deepcopy__, direct protect) from two initial tables; copyreg.dispatch_table is compared with the initial snapshot after every operation. (b) every operation re-executed with an exception injected at every executed library line outside the protection primitive's own methods/with statement and at every user-callback invocation, followed by a clean copy. (c) 2 threads (3 flavours) and 3 threads each deep-copying module-bearing values: every schedule with <= 2 preemptions (3 threads: 1 in quick) at every executed line of utils/mutation.py, fresh primitive state per execution, ~2.8e4 schedules; each copy must succeed carrying the module by identity and the table must be restored at the end of every schedule. Random schedules beyond the bound are run in addition and reported separately.",
+    "Library locks replaced by cooperative re-entrant locks of equal semantics; source-line preemption granularity (bytecode inside the primitive in the thorough tier); GIL-mode CPython; faults inside the primitive's own bookkeeping excluded by the stated reading.",
+    "DESIGN.md section 4, C20",
+)
+
 ENGINES = [
     {"name": "E1-explicit-state", "path": "mc/common.py, props/*.py (explore)", "serves_properties": [],
      "kind_free_text": "breadth-first explicit-state search over the real transition function; a state is the shortest operation history that reaches it, rebuilt by replay; canonical-form deduplication; lock-step reference model"},
